@@ -75,6 +75,31 @@ func quoteIon(s string) string {
 	return sb.String()
 }
 
+// c09TextDecl spells the table declaration of c as a text local symbol table.
+func c09TextDecl(c C09Case) string {
+	var sb strings.Builder
+	sb.WriteString("$ion_symbol_table::{")
+	if len(c.Imports) > 0 {
+		sb.WriteString("imports:[")
+		for i, im := range c.Imports {
+			if i > 0 {
+				sb.WriteString(",")
+			}
+			fmt.Fprintf(&sb, "{name:%s,version:%d,max_id:%d}", quoteIon(im.Name), im.Version, im.MaxID)
+		}
+		sb.WriteString("],")
+	}
+	sb.WriteString("symbols:[")
+	for i, s := range c.Locals {
+		if i > 0 {
+			sb.WriteString(",")
+		}
+		sb.WriteString(quoteIon(s))
+	}
+	sb.WriteString("]}")
+	return sb.String()
+}
+
 // c09Build returns the table under test and the reference ID space.
 func c09Build(c C09Case) (ion.SymbolTable, *refbin.SymTab, string) {
 	var rcat refbin.Catalog
@@ -108,27 +133,7 @@ func c09Build(c C09Case) (ion.SymbolTable, *refbin.SymTab, string) {
 	case "text", "binary":
 		var doc []byte
 		if c.Via == "text" {
-			var sb strings.Builder
-			sb.WriteString("$ion_symbol_table::{")
-			if len(c.Imports) > 0 {
-				sb.WriteString("imports:[")
-				for i, im := range c.Imports {
-					if i > 0 {
-						sb.WriteString(",")
-					}
-					fmt.Fprintf(&sb, "{name:%s,version:%d,max_id:%d}", quoteIon(im.Name), im.Version, im.MaxID)
-				}
-				sb.WriteString("],")
-			}
-			sb.WriteString("symbols:[")
-			for i, s := range c.Locals {
-				if i > 0 {
-					sb.WriteString(",")
-				}
-				sb.WriteString(quoteIon(s))
-			}
-			sb.WriteString("]} 0")
-			doc = []byte(sb.String())
+			doc = []byte(c09TextDecl(c) + " 0")
 		} else {
 			e := refbin.NewEnc(nil)
 			doc = append(doc, refbin.IVM...)
@@ -298,8 +303,32 @@ func runC09(c C09Case) string {
 		if got := tab.Symbols(); len(got) != len(c.Locals) {
 			return fmt.Sprintf("Symbols() has %d entries, want %d", len(got), len(c.Locals))
 		}
+		if c.Via == "text" {
+			// a $n above the maximum, however large, is refused wherever a symbol
+			// token may stand (and never comes back as a symbol that has that text)
+			max := ref.MaxID()
+			for _, n := range []string{fmt.Sprint(max + 1), fmt.Sprint(max + 2), "2147483648", "9223372036854775807", "9223372036854775808",
+				"18446744073709551615", "18446744073709551616", "99999999999999999999", "000000000000000000000" + fmt.Sprint(max+1)} {
+				for _, form := range []string{" $%s", " $%s::1", " {$%s:1}", " ($%s)", " [a::$%s]"} {
+					doc := c09TextDecl(c) + fmt.Sprintf(form, n)
+					r := ion.NewReaderCat(strings.NewReader(doc), ion.NewCatalog(c09IonCatalog(c)...))
+					if _, err := drive.Observe(r); err == nil {
+						return fmt.Sprintf("the reader accepts %q although the table's maximum ID is %d", doc, max)
+					}
+				}
+			}
+		}
 		return ""
 	})
+}
+
+func c09IonCatalog(c C09Case) (icat []ion.SharedSymbolTable) {
+	for _, im := range c.Imports {
+		if im.Catalog != "missing" {
+			icat = append(icat, ion.NewSharedSymbolTable(im.Name, catVersion(im), im.Symbols))
+		}
+	}
+	return icat
 }
 
 // ---- builder state machine
